@@ -74,6 +74,9 @@ type Contract struct {
 	Loops        map[int]*LoopSpec
 	Sweep        []string
 	FreshResult  bool
+	CaseParam    string // verify the body once per listed length of this slice parameter (lengths become literals, loops unroll)
+	CaseLens     []int
+	Recycled     bool // result is a pooled object: fresh or previously redeemed, fields unknown, live afterwards
 	NoSweep      bool
 	Line         string
 	Assumes      []*Clause // explicit assumptions (reported)
@@ -228,6 +231,21 @@ func (cs *ContractSet) parseFile(fname, src string) error {
 			}
 		case word == "fresh":
 			cur.FreshResult = true
+		case word == "recycled":
+			cur.Recycled = true
+		case word == "case_len":
+			f := strings.Fields(rest)
+			if len(f) < 2 {
+				return fail("case_len <param> <n>...")
+			}
+			cur.CaseParam = f[0]
+			for _, a := range f[1:] {
+				n, err := strconv.Atoi(a)
+				if err != nil {
+					return fail("case_len: bad length")
+				}
+				cur.CaseLens = append(cur.CaseLens, n)
+			}
 		case word == "unroll" && loopNo > 0:
 			cur.Loops[loopNo].Unroll = true
 		case word == "modifies":
@@ -298,6 +316,22 @@ func (cs *ContractSet) parseFile(fname, src string) error {
 			case "assume":
 				cur.Assumes = append(cur.Assumes, c)
 				cs.NAssume++
+			}
+		}
+	}
+	// untagged requires/invariants are checked under every property that the contract's ensures/sweep mention
+	for _, c := range cs.ByKey {
+		def := c.frameTags()
+		for _, cl := range c.Requires {
+			if len(cl.Tags) == 0 {
+				cl.Tags = def
+			}
+		}
+		for _, l := range c.Loops {
+			for _, cl := range l.Invariants {
+				if len(cl.Tags) == 0 {
+					cl.Tags = def
+				}
 			}
 		}
 	}
